@@ -4,6 +4,7 @@ package main
 // The S-expression forms mirror the Lean types GoType / GoVal (AvroModel/Build.lean, Codec.lean).
 
 import (
+	"strings"
 	"encoding/hex"
 	"fmt"
 	"math"
@@ -124,7 +125,11 @@ func goTypeOf(d sx) reflect.Type {
 				}
 				tag += "bq:" + strconv.Quote(b)
 			}
-			fs = append(fs, reflect.StructField{Name: fa[0].str(), Type: goTypeOf(fa[4]), Tag: reflect.StructTag(tag)})
+			ft := goTypeOf(fa[4])
+			// convention of the descriptors: a struct-typed field whose name starts with "Emb" is embedded
+			// (its fields are promoted); the model sees an ordinary field, as reflect's Type.Field(i) does
+			emb := strings.HasPrefix(fa[0].str(), "Emb") && ft.Kind() == reflect.Struct
+			fs = append(fs, reflect.StructField{Name: fa[0].str(), Type: ft, Tag: reflect.StructTag(tag), Anonymous: emb})
 		}
 		return reflect.StructOf(fs)
 	}
